@@ -286,10 +286,11 @@ def gen_ops(rng, sig, nw, n_ops, persistence, nqueries=3):
 def gen_scenarios(rng, kinds, n, persistence):
     out = []
     tries = 0
+    big = n > 1000  # thorough tiers also use 4-atom signatures
     while len(out) < n and tries < 20 * n:
         tries += 1
         kind = kinds[len(out) % len(kinds)]
-        atoms = rng.choice([2, 2, 3])
+        atoms = rng.choice([2, 2, 3, 3, 4]) if big else rng.choice([2, 2, 3])
         sig = infer.SIG[:atoms]
         nw = 1 << atoms
         sc = {"kind": kind, "sig": sig, "base": [], "facts": [], "extended": None, "seed": rng.randrange(1 << 30)}
